@@ -310,6 +310,23 @@ func checkProperty(prop, tier, repo, verif string, noEv, verbose bool) int {
 			exit = 2
 		}
 	}
+	var nc *negControlReport
+	if tier == "thorough" && !noEv {
+		// packages in which this property's obligations are anchored
+		anchored := map[string]bool{}
+		for _, r := range results {
+			for _, o := range r.Obligations {
+				if i := strings.LastIndex(o.Pos, "/"); i > 0 {
+					anchored[o.Pos[:i]] = true
+				}
+			}
+		}
+		nc = runNegativeControls(prop, repo, verif, anchored)
+		if nc != nil && nc.Alarms > 0 && exit == 0 {
+			fmt.Fprintf(os.Stderr, "hmscheck: NEGATIVE-CONTROL ALARM for %s: %d behaviour-preserving refactoring(s) make the check report a violation: %v\n", prop, nc.Alarms, nc.AlarmNames)
+			exit = 2
+		}
+	}
 	if len(samples) > 40 {
 		samples = samples[:40]
 	}
@@ -334,6 +351,9 @@ func checkProperty(prop, tier, repo, verif string, noEv, verbose bool) int {
 	}
 	if st != nil {
 		cov["self_test"] = st
+	}
+	if nc != nil {
+		cov["negative_controls"] = nc
 	}
 	ev := map[string]any{
 		"property_id": prop,
